@@ -16,6 +16,8 @@ def cutoff_ops(rng, c):
     o1 = dict(o, init_state=True, init_log=True, max_time=rng.choice([1, 2, 3, 4, 5]))
     si, li = rng.choice([(False, False), (False, True), (True, False), (True, True)])
     o2 = dict(o, init_state=si, init_log=li, rule=rng.randrange(0, 9))
+    if rng.random() < 0.3:
+        return [o1, {"op": "json"}, o2]      # the cut-off project written to a file and read back before the second call
     return [o1, o2]
 
 
@@ -70,6 +72,10 @@ class Kit:
                 c["ops"][0]["rule"] = rng.choice([0, 4, 5, 6, 6, 5, 1])
                 c["ops"][0]["abs"] = []
             c["stream"] = stream
+            if c.get("int_rules"):
+                for o in c["ops"]:
+                    if o.get("op") == "simulate":
+                        o["int_rule"] = True
             if self.tweak:
                 self.tweak(rng, c)
             if not self.make_ops or all(o.get("op") == "simulate" for o in c["ops"]):
